@@ -14,7 +14,7 @@ structure Item where
   dest : Bytes
   host : Bytes
   port : Int
-  deriving Repr, BEq, DecidableEq
+  deriving Repr, DecidableEq
 
 /-- insertion-ordered; at most one item per `dest` (a later add overwrites in place). -/
 abbrev Table := List Item
@@ -39,15 +39,19 @@ def addRouteItem (t : Table) (protocol dest nextHop : Bytes) : Table :=
   | none => t
   | some it => insert t it
 
-/-- '*' = any byte sequence, every other byte itself. Fuel-free structural recursion on the pair. -/
+/-- all suffixes of a byte string, longest first -/
+def suffixes : Bytes → List Bytes
+  | [] => [[]]
+  | b :: bs => (b :: bs) :: suffixes bs
+
+/-- '*' = any byte sequence, every other byte itself (structural recursion on the pattern). -/
 def glob : Bytes → Bytes → Bool
-  | [], [] => true
-  | [], _ :: _ => false
-  | p :: ps, [] => p == 42 && glob ps []
-  | p :: ps, h :: hs =>
-    if p == 42 then glob ps (h :: hs) || glob (p :: ps) hs
-    else p == h && glob ps hs
-termination_by p h => p.length + h.length
+  | [], h => h.isEmpty
+  | p :: ps, h =>
+    if p == 42 then (suffixes h).any (glob ps)
+    else match h with
+      | [] => false
+      | d :: ds => p == d && glob ps ds
 
 def lookupExact (t : Table) (host : Bytes) : Option Item := t.find? (fun x => x.dest == host)
 
